@@ -1145,7 +1145,9 @@ class CanBeVaries(Element):
         if validation_level is None:  # the checks below are about the level the element is going to have
             validation_level = get_default_validation_level()
 
-        if datatype == 'varies' and reference is None:
+        if datatype == 'varies' and reference is None and \
+                (name is None or _valid_child_name(name, 'VARIES') or not Validator.is_strict(validation_level)):
+            # (a named element has its datatype in the tables: STRICT does not let 'varies' replace it)
             reference = ('leaf', None, 'varies', None, None, -1)
 
         if not Validator.is_strict(validation_level) and datatype not in (None, 'varies') \
@@ -1487,7 +1489,8 @@ class Field(SupportComplexDataType):
         if name is None and Validator.is_strict(validation_level) and datatype != 'varies':
             raise OperationNotAllowed("Cannot instantiate an unknown Element with strict validation")
 
-        if datatype == 'varies' and reference is None:
+        if datatype == 'varies' and reference is None and (name is None or not Validator.is_strict(validation_level)):
+            # (a named field has its datatype in the tables: STRICT does not let 'varies' replace it)
             reference = ('leaf', None, 'varies', None, None, -1)
 
         # the field is built on its own and handed to its (traversal) parent at the end, once every check is
@@ -1510,8 +1513,8 @@ class Field(SupportComplexDataType):
             else:
                 raise
 
-        if datatype is not None and Validator.is_strict(validation_level) and \
-                datatype != 'varies' and datatype != self.datatype:
+        if datatype is not None and Validator.is_strict(validation_level) and datatype != self.datatype and \
+                not (name is None and datatype == 'varies'):
             raise OperationNotAllowed("Cannot assign a different datatype with strict validation")
 
         if datatype is not None:  # force the datatype to be the one chosen by the user
